@@ -1893,8 +1893,16 @@ package flags
 //@   assigns Command.commands
 //@ assumed func (g *Group) scanSubGroupHandler(realval reflect.Value, sfield *reflect.StructField) (ok bool, err error)
 //@ func (c *Command) scanSubcommandHandler_closure1(parentg *Group, realval reflect.Value, sfield *reflect.StructField) (ok bool, err error)
-//@   props C19 C04
+//@   props C19 C04 C06 C10
 //@   requires c != nil && parentg != nil && sfield != nil
+//@   loop 1 invariant[C10] forall(J, 0, len(old(c.args)), c.args[J] == old(c.args)[J])
+//@   requires forall(J, 0, len(c.args), allocated(c.args[J]))
+//@   loop 1 invariant[C10] forall(J, 0, len(c.args), allocated(c.args[J]))
+//@   loop 1 invariant[C10] forall(J, 0, i, c.args[len(old(c.args)) + J] != nil)
+//@   loop 1 invariant[C10] forall(J, 0, i, c.args[len(old(c.args)) + J].value == realval.Field(J))
+//@   at[C06] call append #1: m.Get("required") != "" && len(strings.SplitN(m.Get("required"), "-", 2)) > 1 ==> arg.Required == ite(snd(strconv.ParseInt(strings.SplitN(m.Get("required"), "-", 2)[0], 10, 32)) == nil, int(fst(strconv.ParseInt(strings.SplitN(m.Get("required"), "-", 2)[0], 10, 32))), 1) && arg.RequiredMaximum == ite(snd(strconv.ParseInt(strings.SplitN(m.Get("required"), "-", 2)[1], 10, 32)) == nil, int(fst(strconv.ParseInt(strings.SplitN(m.Get("required"), "-", 2)[1], 10, 32))), -1)
+//@   at[C06] call append #1: m.Get("required") != "" && len(strings.SplitN(m.Get("required"), "-", 2)) <= 1 ==> arg.Required == ite(snd(strconv.ParseInt(m.Get("required"), 10, 32)) == nil, int(fst(strconv.ParseInt(m.Get("required"), 10, 32))), 1) && arg.RequiredMaximum == -1
+//@   ensures[C10] forall(J, 0, len(old(c.args)), c.args[J] == old(c.args)[J])
 //@   loop 1 invariant 0 <= i && (old(c.ArgsRequired) ==> c.ArgsRequired) && (i > 0 && len(mtag.Get("required")) != 0 ==> c.ArgsRequired) && len(c.args) == len(old(c.args)) + i
 //@   loop 1 decreases stype.NumField() - i
 //@   at[C19] call append #1: arg != nil && arg.Name == ite(len(m.Get("positional-arg-name")) == 0, field.Name, m.Get("positional-arg-name")) && arg.Description == m.Get("description") && arg.value == realval.Field(i)
